@@ -186,18 +186,17 @@ def case_strahler(ctx, case, be=None):
 # ------------------------------------------------------------------------------------------------
 # synapse flow centrality
 # ------------------------------------------------------------------------------------------------
-def sfc_signature(be, tp, cn):
-    if fast(be):
+def sfc_signature(be, tp, cn, diff):
+    """Known deviations of the pure-Python path, by input class *and* the set of deviating nodes."""
+    if fast(be) or not diff:
         return None
-    s = noedge_sig(be, tp)
-    if s:
-        return s
+    cnodes = {c[0] for c in cn}
+    froots = {r for r in tp.forking_roots() if r not in cnodes}
+    if set(diff) <= froots:
+        return 'synapse_flow_centrality/python/forking-root-inherits-first-segment'
     trees = {tp.root_of(c[0]) for c in cn}
     if len(trees) > 1:
         return 'synapse_flow_centrality/python/forest-counts-pairs-across-trees'
-    cnodes = {c[0] for c in cn}
-    if any(r not in cnodes for r in tp.forking_roots()):
-        return 'synapse_flow_centrality/python/forking-root-inherits-first-segment'
     return None
 
 
@@ -208,21 +207,23 @@ def case_sfc(ctx, case, be=None):
     set_connectors(x, cn)
     wire = G.wire_neuron(x, labels=False)
     pre, post = syn_wire(cn, 'pre'), syn_wire(cn, 'post')
-    sig = sfc_signature(be, tp, cn)
     what = f'synapse_flow_centrality(mode={mode})'
     try:
         navis.synapse_flow_centrality(x, mode=mode)
         impl = col(x, 'synapse_flow_centrality')
     except Exception as e:
-        ctx.oracle(False, f'{what} raised {type(e).__name__}: {str(e)[:100]} {tag(be)}', case, signature=sig)
+        ctx.oracle(False, f'{what} raised {type(e).__name__}: {str(e)[:100]} {tag(be)}', case, signature=noedge_sig(be, tp))
         return
     ctx.count('sfc', f'{mode} {case.get("ckind")} {be or "default"}')
     if len(tp.roots) > 1:
         ctx.count('sfc_forest', be or 'default')
+    model = ctx.ask(f'c17.sfc {mode} 1 | {pre} | {post} | {wire}')
+    mcol = parse_col(model)
+    diff = [i for i in sorted(impl) if impl[i] is None or str(int(impl[i])) != mcol[i]]
+    sig = sfc_signature(be, tp, cn, diff)
     ok = ctx.ask(f'c17.sfcok {mode} | {pre} | {post} | {wire} | {show_col(impl)}')
     ctx.oracle(ok == '1', f'{what}: value differs from the number of post→pre tree paths through the node in the mode\'s direction '
                f'(forks: largest child): {ok} {tag(be)}', case, signature=sig)
-    model = ctx.ask(f'c17.sfc {mode} 1 | {pre} | {post} | {wire}')
     ctx.corr(show_col(impl), model, f'{what} vs (total−distal)·distal formula with fork-max rule {tag(be)}', case, signature=sig)
 
 
@@ -544,9 +545,11 @@ BACKEND_STREAMS = ('strahler', 'sfc', 'flowc', 'bend')     # re-run under the pu
 
 
 def run_case(ctx, kind, case, be=None):
+    """`case` carries `kind` and `be`, so that a failure's case is directly replayable."""
+    full = dict(case, kind=kind, be=be)
     cm = backend(be) if be else contextlib.nullcontext()
     with cm:
-        RUNNERS[kind](ctx, case, be)
+        RUNNERS[kind](ctx, full, be)
 
 
 def run(ctx, be=None):
@@ -563,7 +566,7 @@ def run(ctx, be=None):
         nontriv = len(case.get('rows', case.get('frags'))) >= (3 if 'rows' in case else 2)
         if be is not None:       # called by the C04 harness: the caller switches the back-end
             ctx.case(dict(case, kind=kind, be=be), nontrivial=nontriv)
-            RUNNERS[kind](ctx, case, be)
+            RUNNERS[kind](ctx, dict(case, kind=kind, be=be), be)
             continue
         ctx.case(dict(case, kind=kind), nontrivial=nontriv)
         run_case(ctx, kind, case, None)
